@@ -11,11 +11,12 @@
  *   A <h> sr <port> <s11> | A <h> dr <p1> <p2> <s11> <s22> | A <h> th <p1> <p2> | A <h> bad
  *                                       vnacal_new_add_single_reflect_m / double_reflect_m / through_m with the
  *                                       full m matrix (bad: one row too many)
- *   E <h> bad | clear | inv | set <n>   vnacal_new_set_m_error: frequencies 0 | NULL NULL | sigma_nf NULL |
- *                                       n = 0: one value, 1: spline of sigma_nf, 2: splines of both
+ *   E <h> bad | clear | inv | set <n> | close   vnacal_new_set_m_error: frequencies 0 | NULL NULL | sigma_nf NULL |
+ *                                       n = 0: one value, 1: spline of sigma_nf, 2: splines of both | two frequencies closer than the spline accepts
  *   S <h>                               vnacal_new_solve
  *   F <h>                               vnacal_new_free
  *   V <h>                               (C side only, one line "D ...") the solved error terms of the handle: values, finite or not
+ *   P <i> <f>                           (C side only, one line "D ...") vnacal_get_parameter_value of parameter i at frequency f
  *   end                                 delete the user parameters, vnacal_free (tracked)
  * Before every op with a fault (k >= 0) a forked child runs the same op without fault and prints the argument class the model
  * needs ("I ..."); an op without fault prints it itself.  Then the op runs with the requested fault and prints
@@ -222,6 +223,7 @@ static int run_op(const char *op, char **tok, int ntok, long k, int info, int *p
 	if (!strcmp(kind, "bad")) rc = vnacal_new_set_m_error(v, NULL, 0, nf, tr);
 	else if (!strcmp(kind, "clear")) rc = vnacal_new_set_m_error(v, NULL, 1, NULL, NULL);
 	else if (!strcmp(kind, "inv")) rc = vnacal_new_set_m_error(v, NULL, 1, NULL, tr);
+	else if (!strcmp(kind, "close")) { double fc[3] = { fv[0], fv[0] + 5e-5, fv[2] }; rc = vnacal_new_set_m_error(v, fc, 3, nf, tr); }
 	else if (n == 0) rc = vnacal_new_set_m_error(v, NULL, 1, nf, tr);
 	else if (n == 1) rc = vnacal_new_set_m_error(v, fv, 3, nf, NULL);
 	else rc = vnacal_new_set_m_error(v, fv, 3, nf, tr);
@@ -229,19 +231,44 @@ static int run_op(const char *op, char **tok, int ntok, long k, int info, int *p
 	verif_alloc_track(0);
 	if (info) {
 	    int cls = !strcmp(kind, "bad") ? 0 : !strcmp(kind, "clear") ? 1 : !strcmp(kind, "inv") ? 2 : 3;
-	    if (cls == 3 && rc != 0) cls = 2;
+	    if (!strcmp(kind, "close")) {
+		/* the spline refuses the frequencies after its five requests (class 4), unless an earlier check refused the call (class 2) */
+		cls = (rc != 0 && *perrno == EINVAL && verif_alloc_count >= 5) ? 4 : 2;
+		n = 0;
+	    } else if (cls == 3 && rc != 0) cls = 2;
 	    printf("I %d %d\n", cls, n);
 	}
     } else if (op[0] == 'S') {
 	vnacal_new_trl_indices_t vnti;
 	int trl = v->vn_frequencies_valid ? _vnacal_new_solve_is_trl(v, &vnti) : 0;
+	long n_init = -1, n_cal = -1;
+	if (info && v->vn_frequencies_valid) {
+	    /* the requests of _vnacal_new_solve_init and of _vnacal_calibration_alloc on their own (same arguments as
+	     * _vnacal_new_solve_internal passes), so that the model's lists are compared one by one and not only in total */
+	    vnacal_new_solve_state_t vnss;
+	    const vnacal_layout_t *vlp = &v->vn_layout;
+	    vnacal_layout_t e12;
+	    vnacal_type_t type_out = VL_TYPE(vlp);
+	    int eterms = VL_ERROR_TERMS(vlp);
+	    if (VL_TYPE(vlp) == _VNACAL_E12_UE14) { _vnacal_layout(&e12, VNACAL_E12, rows, cols); type_out = VNACAL_E12; eterms = VL_ERROR_TERMS(&e12); }
+	    verif_alloc_reset(0);
+	    verif_alloc_track(1);
+	    if (_vnacal_new_solve_init(&vnss, v) == 0) { n_init = verif_alloc_count; _vnacal_new_solve_free(&vnss); }
+	    verif_alloc_reset(0);
+	    vnacal_calibration_t *calp = _vnacal_calibration_alloc(vcp, type_out, rows, cols, freqs, eterms);
+	    if (calp != NULL) { n_cal = verif_alloc_count; _vnacal_calibration_free(calp); }
+	    verif_alloc_track(0);
+	    verif_alloc_reset(0);
+	    errno = 0;
+	}
 	verif_alloc_track(1);
 	rc = vnacal_new_solve(v);
 	*perrno = errno;
 	verif_alloc_track(0);
 	if (info) {
-	    if (rc != 0 && *perrno != EINVAL) printf("I skip %s %d\n", ecls(*perrno), *perrno);
-	    else printf("I %ld %d\n", verif_alloc_count, trl);
+	    /* total requests, TRL shortcut, requests of solve_init / calibration_alloc alone, and whether a numeric kernel gave up
+	     * (a failure that is neither a refused call nor an allocation failure) */
+	    printf("I %ld %d %ld %ld %d\n", verif_alloc_count, trl, n_init, n_cal, rc != 0 && *perrno != EINVAL);
 	}
     } else if (op[0] == 'F') {
 	verif_alloc_track(1);
@@ -314,6 +341,15 @@ int main(int argc, char **argv)
 	    continue;
 	}
 	if (vcp == NULL) { printf("R SKIP E0 0 0 | |\n"); continue; }
+	if (!strcmp(op, "P")) {
+	    /* C side only: vnacal_get_parameter_value of model parameter i at frequency f */
+	    int i = ntok > 2 ? atoi(tok[2]) : -1;
+	    double f = ntok > 3 ? atof(tok[3]) : 1e9;
+	    if (i < 0 || i >= nprm) { printf("D none\n"); continue; }
+	    double complex z = vnacal_get_parameter_value(vcp, pidx[i], f);
+	    if (creal(z) == HUGE_VAL) printf("D novalue\n"); else printf("D %.9g,%.9g\n", creal(z) + 0.0, cimag(z) + 0.0);
+	    continue;
+	}
 	if (!strcmp(op, "V")) {
 	    /* C side only: the solved error terms of handle h (are they finite, their values to 9 digits) */
 	    int h = ntok > 2 ? atoi(tok[2]) : -1;
@@ -336,7 +372,6 @@ int main(int argc, char **argv)
 	    int e = 0;
 	    int rc = run_op(op, tok + 2, ntok - 2, -1, 2, &e);
 	    long made = verif_alloc_count;
-	    if (op[0] == 'S' && rc != 0 && e != EINVAL) { printf("R SKIP E0 0 0 | |\n"); continue; }	/* numeric failure: not an op of the model (no effect) */
 	    printf("R %s %s %ld %ld", rc == 0 ? "Done" : "Err", rc == 0 ? "E0" : ecls(e), verif_live_blocks() - base_live, made);
 	    summary();
 	    printf("\n");
@@ -349,7 +384,8 @@ int main(int argc, char **argv)
 	    int e = 0;
 	    int crc = run_op(op, tok + 2, ntok - 2, -1, 1, &e);
 	    fflush(stdout);
-	    _exit((op[0] == 'S' && crc != 0 && e != EINVAL) ? 7 : 0);
+	    (void)crc;
+	    _exit(0);
 	}
 	int st = 0;
 	waitpid(pid, &st, 0);
